@@ -140,8 +140,8 @@ def as_sum(t):
         return t[1][2], t[1][3]
     if t[0] == "bin" and t[1] in ("Add", "AddUnchecked"):
         return t[2], t[3]
-    if t[0] == "payload" and is_call(t[1], "ok_or", "ok_or_else") and t[1][2] and is_call(look(t[1][2][0]), "checked_add"):
-        ca = look(t[1][2][0])
+    ca = payload_of(t)
+    if ca is not None and is_call(ca, "checked_add") and len(ca[2]) == 2:
         return ca[2][0], ca[2][1]
     return None
 
